@@ -35,7 +35,7 @@ CLAIMED = {
          "Single simulated thread; archive-backed directories are exercised by C04's source comparison.", "DESIGN.md §7 C11"),
  "C07": ("exploration", "deterministic simulation: 1-4 reader threads (short reads, long-held guards, mapped guards, two-halves reads, copied(), watcher polling) against a stream of reloads, both RwLock preference policies and both lock front-ends",
          "Seeded search over interleavings of readers and the reloader around the per-entry RwLock; oracles: self-checking values (no mixture), value / reload id / liveness constant while a guard is alive, hot_reload returns only when the notified content is installed, every creation/drop performed by the reloader lies inside a hot_reload call (ledger sequence numbers), nothing moves at quiescence, watcher polling never reads an older value than the reported reload. Sampling, not proof.",
-         "swap_any has no scheduling point inside, so a lock-bypassing reader cannot observe a half-written value under engine A (stated in the evidence).", "DESIGN.md §7 C07"),
+         "swap_any has no scheduling point inside, so a lock-bypassing reader cannot observe a half-written value under engine A: engine A checks mutual exclusion at the seam (hook H8), and the Miri engine runs readers against reloads on the real locks, where such a reader is a data race.", "DESIGN.md §7 C07"),
  "C01": ("exploration", "deterministic simulation: seeded schedules of 2-4 threads racing load/get_cached/get_or_insert/contains on hot keys with filler bursts (rehash), shard/hash/lock-policy knobs; pointer identity, drop ledger, linearizability against an insert-once slot",
          "Seeded search over interleavings (random, sticky, PCT) of racing loaders and inserters on 1-3 hot keys x 3 kinds of types with unrelated insertion bursts, on 1..256 shards (incl. non-power-of-two counts), through AssetCache and AnyCache; every source read is a scheduling point so several loaders are past the miss before any inserts. Oracles: same address for every handle of a key, one winner observed by all, losers dropped, stored value never dropped while reachable (ledger), per-key history linearizable against an insert-once slot, handles re-read after bursts, remove/take/clear between phases. Sampling, not proof.",
          "Shard RwLocks are simulator models; memory errors proper (use after free) are only seen as crashes of the worker process, which are confirmed and minimised in fresh processes.", "DESIGN.md §7 C01"),
@@ -77,7 +77,7 @@ m = {
  },
  "engines": [
   {"name": "detsim (engine A)", "path": "sim/", "serves_properties": sorted(CLAIMED), "kind_free_text": "seeded cooperative scheduler over real OS threads (one baton), simulated locks / condvars / channels / once-cell / notify back-end, in-memory faultable Source and Read seams; one seed = one exactly repeatable run; tape replay; joint minimisation of workload, faults and schedule"},
-  {"name": "miri (engine B)", "path": "miri/", "serves_properties": [p for p in ("C16", "C17", "C18") if p in CLAIMED], "kind_free_text": "Miri's seeded scheduler (-Zmiri-seed, preemption rate) over the real atomics / once_cell, with UB, data-race and leak detection as oracle"},
+  {"name": "miri (engine B)", "path": "miri/", "serves_properties": [p for p in ("C07", "C13", "C16", "C17", "C18") if p in CLAIMED], "kind_free_text": "Miri's seeded scheduler (-Zmiri-seed, preemption rate) over the real atomics / once_cell, with UB, data-race and leak detection as oracle"},
  ],
  "checks": [],
  "notes": "./check <ID> --tier quick|thorough ; ./check <ID> --replay <file>. Exit 0 held / 1 VIOLATION / 2 harness error (never a verdict). Default VERIF_SEED=20260927.",
@@ -93,7 +93,7 @@ for p in props:
          "thorough_cmd": f"./check {i} --tier thorough",
          "evidence_file": f"/verif/evidence/{i}.json",
          "replay_cmd_template": f"./check {i} --replay {{path}}",
-         "engine": "detsim (engine A)" + (" + miri (engine B)" if i in ("C16", "C17", "C18") else ""),
+         "engine": "detsim (engine A)" + (" + miri (engine B)" if i in ("C07", "C13", "C16", "C17", "C18") else ""),
          "level_claimed": {"category": lvl, "text": text, "design_ref": ref},
          "level_note": note,
          "technique": tech,
